@@ -187,6 +187,24 @@ class SStr(object):
         except ValueError:
             return -1
 
+    def rindex(self, sub, *a):
+        sc = codes_of(sub)
+        if a or len(sc) != 1:
+            return self.concretize().rindex(sub if isinstance(sub, str) else sub.concretize(), *a)
+        present = z3.Or([c == sc[0] for c in self.codes]) if self.codes else z3.BoolVal(False)
+        if not eng().decide(present):
+            raise ValueError("substring not found")
+        e = z3.IntVal(0)
+        for j in range(1, len(self.codes)):
+            e = z3.If(self.codes[j] == sc[0], j, e)
+        return SymInt(e)
+
+    def rfind(self, sub, *a):
+        try:
+            return self.rindex(sub, *a)
+        except ValueError:
+            return -1
+
     def replace(self, a, b, *cnt):
         ac, bc = codes_of(a), codes_of(b)
         if cnt or len(ac) != 1 or len(bc) != 1:
